@@ -29,6 +29,16 @@ Section Clean.
     | _ :: r => manifest_blocked r
     end.
 
+  (* what os.Remove(dir/ManifestFile) at the start of CleanTargetDir(dir) removes: a file of that name, or an empty
+     directory of that name (a non-empty one makes the call fail: manifest_blocked) *)
+  Fixpoint drop_manifest (cs : list node) : list node :=
+    match cs with
+    | [] => []
+    | File fn c :: r => if is_manifest fn then drop_manifest r else File fn c :: drop_manifest r
+    | Dir dn [] :: r => if is_manifest dn then drop_manifest r else Dir dn [] :: drop_manifest r
+    | x :: r => x :: drop_manifest r
+    end.
+
   Definition ocons (o : option node) (l : list node) : list node :=
     match o with Some n => n :: l | None => l end.
 
@@ -56,7 +66,8 @@ Section Clean.
                        | _ :: _ =>
                            let '(oc, okc) := clean_node c in
                            if okc then let '(r', ok) := go r in (ocons oc r', ok)
-                           else (ocons oc r, false)                (* abort: the remaining children are untouched *)
+                           else (ocons oc (drop_manifest r), false) (* abort: the remaining children are untouched, except
+                                                                        that the manifest entry was removed up front *)
                        end
                    end
                end) cs in
@@ -80,7 +91,7 @@ Section Clean.
             | _ :: _ =>
                 let '(oc, okc) := clean_node c in
                 if okc then let '(r', ok) := clean_children r in (ocons oc r', ok)
-                else (ocons oc r, false)
+                else (ocons oc (drop_manifest r), false)
             end
         end
     end.
